@@ -18,11 +18,12 @@ fn run_case<T: Elem>(case: u64, args: &Args, ev: &mut Ev, log: &mut EventLog) {
     let n = match case % 4 {
         0 => 3,
         1 => 4,
+        _ if case % 50 == 47 => *rng.pick(&[257usize, 300, 513, 1025]),
         _ => pick_n(&mut rng, 3, 30),
     };
     let class = *rng.pick(&AxisClass::SMOOTH);
     let x: Vec<T> = gen_axis(&mut rng, n, class, &AxisOpts::spline());
-    let lanes = gen_lane_shape(&mut rng, 2, false);
+    let lanes = if n > 100 { vec![] } else { gen_lane_shape(&mut rng, 2, false) };
     let mut shape = vec![n];
     shape.extend(&lanes);
     let dclass = *rng.pick(&DataClass::ALL);
@@ -48,11 +49,17 @@ fn run_case<T: Elem>(case: u64, args: &Args, ev: &mut Ev, log: &mut EventLog) {
     } else {
         &[1.0, -1.0, 2.0, -2.0, 10.0, -10.0, 1.0e3, -1.0e3, 1.0e6, -1.0e6]
     };
-    let base = spline_queries(&mut rng, &x, 4);
+    let mut base = spline_queries(&mut rng, &x, 4);
+    if n > 100 {
+        // make sure the first and last intervals are well represented
+        let m = base.len();
+        let tail: Vec<T> = base.iter().copied().filter(|v| *v >= x[n - 3] || *v <= x[2]).collect();
+        base.extend(tail.iter().cycle().take(m.min(200)).copied());
+    }
     let mut q: Vec<T> = Vec::new();
     // x + k P over the sample set (sub-sampled to keep the batch moderate)
     for &k in ks {
-        for _ in 0..6 {
+        for _ in 0..(if n > 100 { 40 } else { 6 }) {
             let b = *rng.pick(&base);
             q.push(b + T::of(k) * p);
         }
